@@ -475,6 +475,7 @@ func main() {
 		"random values x validation on/off; non-trivial = expressible shape and value, encode succeeded and the value contains a nested " +
 		"struct, interface value or non-empty collection; distinct by sha256 of schema and value"
 	x := &runner{r: r, derive: true}
+	count = r.Count
 	if lines := r.ReplayLines(); lines != nil {
 		x.derive = false
 		x.runCase(0, lines)
